@@ -422,7 +422,7 @@ fn vp_maybe_fetch_blocks(t: &mut PhaseTrace) -> (r: bool) ensures final(t).log@ 
 fn vp_maybe_process_response(t: &mut PhaseTrace) ensures final(t).log@ == old(t).log@.push(PH_PROCESS) { unimplemented!() }
 #[verifier::external_body]
 fn vp_maybe_compute_fee_percentiles(t: &mut PhaseTrace) ensures final(t).log@ == old(t).log@.push(PH_FEES) { unimplemented!() }
-//@extract file=canister/src/heartbeat.rs item="fn heartbeat" props=C13
+//@extract file=canister/src/heartbeat.rs item="fn heartbeat" props=C13,C08
 //@ sigrewrite R7 "async fn heartbeat\(\)" => "fn heartbeat(vp_tr: &mut PhaseTrace)"
 //@ rewrite R7 "collect_metrics\(\);" => "vp_collect_metrics(vp_tr);"
 //@ rewrite R7 "maybe_burn_cycles\(\);" => "vp_maybe_burn_cycles(vp_tr);"
